@@ -157,7 +157,7 @@ def build_cas(cassis, ts, cspec, lenient=False):
     views = []
     for i, v in enumerate(cspec["views"]):
         view = cas if i == 0 else cas.create_view(v["name"])
-        if v.get("text0") is not None:  # the text of the view is replaced: the offset table has to follow
+        if v.get("text0") is not None and v.get("text") is not None:  # the text of the view is replaced: the offset table has to follow
             view.sofa_string = "".join(chr(c) for c in v["text0"])
         if v.get("text") is not None:
             view.sofa_string = "".join(chr(c) for c in v["text"])
